@@ -182,6 +182,20 @@ def body_pairs(ctx):
     analyse(ctx, code, bool(SNIP[a][1] and SNIP[b][1]), 'pair')
 
 
+INTRO_IDX = [i for i, (c, intro) in enumerate(SNIP) if intro]
+
+
+def body_triples(ctx):
+    idx = [INTRO_IDX[ctx.choose(len(INTRO_IDX), 's%d' % i)] for i in range(3)]
+    code = "\n".join(SNIP[i][0] for i in idx) + "\n"
+    if not _valid(code):
+        ctx.abstain()
+        return
+    ctx.observe(code)
+    ctx.set_sample(code)
+    analyse(ctx, code, True, 'triple')
+
+
 def body_registry(ctx):
     i = ctx.choose(len(REGISTRY), 'program')
     code, name = REGISTRY[i]
@@ -215,4 +229,6 @@ def phases(tier):
     return [Phase('forms', body_forms, setup=_setup, chunk=40, describe='every language-form snippet x container'),
             Phase('pairs', body_pairs, setup=_setup, chunk=100, describe='every ordered pair of snippets'),
             Phase('registry', body_registry, setup=_setup, chunk=100, describe='every registered builtin/method x argument shapes'),
-            Phase('flow', body_flow, setup=_setup, chunk=100, describe='flow grammar (branches, loops, functions)')]
+            Phase('flow', body_flow, setup=_setup, chunk=100, describe='flow grammar (branches, loops, functions)')] + (
+        [Phase('intro-triples', body_triples, setup=_setup, chunk=200,
+               describe='every ordered triple of the introductory-subset snippets (%d^3)' % len(INTRO_IDX))] if tier == 'thorough' else [])
